@@ -47,10 +47,153 @@ def setup(jobs=16):
     rc = anchors()
     if rc:
         return rc
-    return determinism(24)
+    rc = determinism(24)
+    return rc or sync_seam(20)
+
+
+def sync_seam(nseeds=40):
+    """The synchronisation seam under the kernel: mutual exclusion, every seed twice with the same trace, several distinct
+    interleavings over the seeds, lock-order inversion ends as HANG (not as a real-time hang), events / semaphores / conditions."""
+    import os as _os
+    r, w = _os.pipe()
+    pid = _os.fork()
+    if pid == 0:
+        rc = 1
+        try:
+            _os.close(r)
+            rc = _sync_child(nseeds)
+        except BaseException:
+            import traceback
+            traceback.print_exc()
+        finally:
+            _os._exit(rc)
+    _os.close(w)
+    _, st = _os.waitpid(pid, 0)
+    ok = _os.WIFEXITED(st) and _os.WEXITSTATUS(st) == 0
+    print('synchronisation seam: %s' % ('ok' if ok else 'FAILED'))
+    return 0 if ok else 2
+
+
+def _sync_child(nseeds):
+    from . import runner
+    runner.prepare()
+    from . import seams, sync
+    from .kernel import Kernel, SimAbort
+
+    class W:
+        pass
+
+    def world(seed, policy='random'):
+        k = Kernel(seed, {'policy': policy, 'seed': seed})
+        sync._counter[0] = 0        # creation ordinals name the objects in the event log; a real run starts from a fresh fork
+        w = W()
+        w.k = k
+        seams.ACTIVE = w
+        return k
+
+    def counter_run(seed):
+        k = world(seed)
+        lock, ev, sem = sync.SimLock(), sync.SimEvent(), sync.SimSemaphore(2)
+        cond = sync.SimCondition()
+        state = {'n': 0, 'inside': 0, 'max_inside': 0, 'sem_inside': 0, 'sem_max': 0, 'items': [], 'got': []}
+        trace = []
+
+        def worker(i):
+            ev.wait()
+            for _ in range(4):
+                with lock:
+                    state['inside'] += 1
+                    state['max_inside'] = max(state['max_inside'], state['inside'])
+                    v = state['n']
+                    k.yield_point()
+                    state['n'] = v + 1
+                    trace.append(i)
+                    state['inside'] -= 1
+                with sem:
+                    state['sem_inside'] += 1
+                    state['sem_max'] = max(state['sem_max'], state['sem_inside'])
+                    k.yield_point()
+                    state['sem_inside'] -= 1
+            with cond:
+                state['items'].append(i)
+                cond.notify()
+
+        def consumer():
+            for _ in range(3):
+                with cond:
+                    cond.wait_for(lambda: state['items'])
+                    state['got'].append(state['items'].pop(0))
+
+        tasks = [k.spawn('w%d' % i, (lambda i=i: worker(i))) for i in range(3)] + [k.spawn('c', consumer)]
+        k.yield_point()
+        ev.set()
+        k.block(lambda: all(not t.alive for t in tasks))
+        assert state['n'] == 12 and state['max_inside'] == 1, state
+        assert 1 <= state['sem_max'] <= 2, state
+        assert sorted(state['got']) == [0, 1, 2], state
+        seams.ACTIVE = None
+        return tuple(trace), k.digest()
+
+    traces = set()
+    for seed in range(nseeds):
+        a, b = counter_run(seed), counter_run(seed)
+        assert a == b, 'seed %d: two runs differ' % seed
+        traces.add(a[0])
+    assert len(traces) >= nseeds // 4, 'only %d distinct interleavings over %d seeds' % (len(traces), nseeds)
+    # lock-order inversion: both tasks end up waiting for the other's lock -> the kernel reports HANG
+    hangs = 0
+    for seed in range(nseeds):
+        k = world(seed, 'rr')
+        a, b = sync.SimLock(), sync.SimLock()
+        outcome = []
+
+        def on_abort(o, k=k):
+            # the thread that noticed the hang is any task's thread: record the outcome and wake the main task, which then raises SimAbort
+            outcome.append(o)
+            k.tasks[0].sem.release()
+        k.abort_handler = on_abort
+
+        def t1():
+            with a:
+                k.yield_point()
+                with b:
+                    pass
+
+        def t2():
+            with b:
+                k.yield_point()
+                with a:
+                    pass
+        ts = [k.spawn('t1', t1), k.spawn('t2', t2)]
+        try:
+            k.block(lambda: all(not t.alive for t in ts))
+        except SimAbort:
+            pass
+        if outcome == ['HANG']:
+            hangs += 1
+        else:
+            assert not outcome, outcome
+        seams.ACTIVE = None
+    assert hangs >= 1, 'lock-order inversion never ended as HANG'
+    # timeouts are virtual
+    k = world(1)
+    lk = sync.SimLock()
+    lk.acquire()
+    t0 = k.now
+    assert lk.acquire(timeout=30) is False and 30_000_000 <= k.now - t0 < 31_000_000
+    assert sync.SimEvent().wait(5) is False
+    seams.ACTIVE = None
+    # outside a run the objects behave like the real ones
+    lk2 = sync.SimLock()
+    assert lk2.acquire() and lk2.locked() and not lk2.acquire(False)
+    lk2.release()
+    print('  %d seeds x 2 identical, %d distinct interleavings, lock-order inversion ended as HANG in %d of %d schedules' % (nseeds, len(traces), hangs, nseeds))
+    return 0
 
 
 def run(what, tier, jobs, seed):
+    if what == 'sync':
+        return sync_seam(40 if tier == 'quick' else 400)
     if what == 'determinism':
         rc = determinism(100 if tier == 'quick' else 2000)
         return rc or determinism_campaigns(6 if tier == 'quick' else 40, jobs)
